@@ -25,14 +25,16 @@ P = ("C02", "C03", "C05", "C06")
 Contract("workload.workload.Workload.get_task_graph", inline=True, props=P)
 Contract("workers.workers.WorkerPools.get_worker_pool", inline=True, props=P)
 
+REMT = z3.Function("task_remaining_time", z3.ArraySort(z3.IntSort(), z3.IntSort()), z3.ArraySort(z3.IntSort(), T.sort(OptET)), z3.IntSort(), T.sort(ETy))
+
 Contract(
     "workload.tasks.Task.remaining_time",
     params={"self": S_.Task.ty},
     ret=ETy,
     trusted=True,
-    ensures=lambda c: z3.BoolVal(True),
-    note="Task.remaining_time (only used to pick the retry delay of a not-ready placement; its value is irrelevant to the obligations)",
-    props=P,
+    ensures=lambda c: c.res == REMT(c.pre.fld_arr(TASK, "_state")[2], c.pre.fld_arr(TASK, "_remaining_time")[2], c.arg("self")),
+    note="Task.remaining_time: a pure function of the task's state and remaining time (zero when done, the stored remaining time when scheduled/running, otherwise the slowest strategy's runtime); only its functionality is used",
+    props=P + ("C13",),
 )
 
 Contract(
@@ -87,15 +89,32 @@ Contract(
     props=P,
 )
 
+def _pool_ghost(c, p):
+    return {c.pre.fld_arr(POOL, g)[0]: [p] for g in ("$ver", "$last_task", "$last_strategy")}
+
+
+def _pool_place_ens(c):
+    p, task, s = c.arg("self"), c.arg("task"), c.arg("execution_strategy")
+    v0 = c.pre.rd(p, POOL, "$ver")[1]
+    CA = z3.Function("pool_can_accomodate", z3.IntSort(), z3.IntSort(), z3.IntSort(), z3.BoolSort())
+    placed = z3.And(c.post.rd(p, POOL, "$ver")[1] == v0 + 1, c.post.rd(p, POOL, "$last_task")[1] == task, c.post.rd(p, POOL, "$last_strategy")[1] == s)
+    same = z3.And(*[c.post.rd(p, POOL, g)[1] == c.pre.rd(p, POOL, g)[1] for g in ("$ver", "$last_task", "$last_strategy")])
+    return z3.And(
+        z3.If(c.res, placed, same),
+        # first fit over the pool's workers: a strategy the pool can accomodate is placed (no worker_id given)
+        z3.Implies(z3.And(s != 0, T.opt_is_none(S_.OptSTR, c.arg("worker_id")), CA(v0, p, s)), c.res),
+    )
+
+
 Contract(
     "workers.workers.WorkerPool.place_task",
     params={"self": S_.WorkerPool.ty, "task": S_.TASKR, "execution_strategy": S_.nullable("workload.strategy.ExecutionStrategy"), "worker_id": S_.OptSTR},
     ret=T.BOOL,
     trusted=True,
-    modifies=lambda c: {},
-    ensures=lambda c: z3.BoolVal(True),
-    note="WorkerPool.place_task as seen from the placement handler: a boolean; its effect on the cluster ledger is the subject of C04/C01 (Worker-level contracts + bounded ledger) and is framed out here (no Task / Event / queue field is touched)",
-    props=P,
+    modifies=lambda c: _pool_ghost(c, c.arg("self")),
+    ensures=_pool_place_ens,
+    note="WorkerPool.place_task, abstractly: on success the pool's occupancy (ghost version) moves by one placement of (task, strategy) and nothing else changes; a strategy that can_accomodate_strategy accepts is placed. Its effect on the ledger is the subject of C04/C01 (Worker-level contracts + bounded ledger); no Task / Event / queue field is touched",
+    props=P + ("C13", "C10", "C12"),
 )
 
 
@@ -139,6 +158,8 @@ def _hp_mod(c):
     for p in ("len", "keys", "idx", "dom", "val"):
         out[c.pre.carr(FutureMap, p)[0]] = [fut(c.pre, s)]
         out[c.pre.carr(Adj, p)[0]] = [g_parents(c.pre, g)]
+    for gh in ("$ver", "$last_task", "$last_strategy"):
+        out[c.pre.fld_arr(POOL, gh)[0]] = ANY
     return out
 
 
